@@ -2,8 +2,8 @@
    ExtrOcamlBasic only: no Extract Constant / Extract Inductive of our own;
    N, Z, positive, byte stay the extracted inductive types. *)
 From Coq Require Import Extraction ExtrOcamlBasic.
-From Martian Require Import Lib.Bytes Lib.Utf8 K.ShellQuote K.Sh.
+From Martian Require Import Lib.Bytes Lib.Utf8 K.ShellQuote K.Sh K.JobScript.
 Extraction Language OCaml.
 Extraction "model.ml"
   b2n n2b
-  quote format_args sh_dquote sh_simple_command valid_utf8.
+  quote format_args sh_dquote sh_simple_command valid_utf8 replace_all.
